@@ -69,6 +69,15 @@ def is_known(v, f):
 
 
 def replay_finding(ctx, f):
+    if f.get("id") == "F23":
+        # repeated key in a multi-get: a GetData residue in a case that has such a get and none of the recorded leak kinds
+        # (on the code before the repair the first hits of seed 535353 are cases 136, 137 and 216)
+        for c in pc.gen_cases(ctx, 220, 535353):
+            kinds = {cmd["kind"] for cn in c["conns"] for cmd in cn["cmds"]}
+            if "get-dup" in kinds and not (kinds & KNOWN_KINDS) and not any(cn["mut"] for cn in c["conns"]):
+                if c["acct"][2] != 0 or c["acct"][3] != 0:
+                    return True
+        return False
     cases = pc.gen_cases(ctx, 80, 525252)
     return any(is_known(v, f) for c in cases for v in pc.c12_oracle(c))
 
